@@ -89,7 +89,16 @@ fn model_int(t: &[usize], zs: &[f32]) -> Model {
         4 => Some(uid("dangling-space")),
         _ => Some(nxt),
     };
-    m.walls.push(wall("X", BoundaryType::INTERIOR, c, own, next, subject_geom(TILTS[t[0]])));
+    // the partition's own area enters its U-value: it alternates too, and every other partition carries a window
+    let mut x = wall("X", BoundaryType::INTERIOR, c, own, next, subject_geom(TILTS[t[0]]));
+    if (t[1] + t[3] + t[7]) % 2 == 1 {
+        x.geometry.polygon = rect(2.5, 2.0);
+    }
+    let xid = x.id;
+    m.walls.push(x);
+    if (t[0] + t[4]) % 2 == 1 {
+        m.windows.push(window("X_v", uid("winc"), xid, None, 0.8, 0.6, 0.0));
+    }
     m
 }
 
@@ -180,6 +189,26 @@ fn check_wall(ctx: &Ctx, m: &Model, wname: &str, case: &dyn Fn() -> Value, acc: 
     acc.outcomes.insert(got.map_or(u64::MAX, |g| g.to_bits() as u64));
     if acc.n % ctx.tier.pick(4, 1) == 0 {
         check_props(ctx, m, case, acc);
+        // the same elements stored in another order (walls reversed and rotated, spaces and windows reversed)
+        let mut q = m.clone();
+        q.walls.reverse();
+        let k = q.walls.len() / 2;
+        q.walls.rotate_left(k);
+        q.spaces.reverse();
+        q.windows.reverse();
+        if let Some(w2) = q.walls.iter().find(|w| w.name == wname) {
+            acc.n += 1;
+            if let Ok(g2) = catch(std::panic::AssertUnwindSafe(|| w2.u_value(&q))) {
+                let ok = match (g2, &exp) {
+                    (None, None) => true,
+                    (Some(g), Some(iv)) => !iv.nominal.is_finite() || (g.is_finite() && iv.contains(g as f64)),
+                    _ => false,
+                };
+                if !ok {
+                    ctx.violation(&format!("u_value:depends-on-element-order:{:?}", w.bounds), &format!("with the walls, spaces and windows stored in another order U={:?} (as given: {:?}; the standards give {:?})", g2, got, exp.as_ref().map(|i| (i.lo, i.hi))), json!({"case": case(), "wall": wname, "model": serde_json::to_value(&q).unwrap()}));
+                }
+            }
+        }
     }
     got
 }
@@ -318,7 +347,7 @@ pub fn run(ctx: &Ctx) -> i32 {
     ctx.note("branches_reached", json!(b));
     ctx.finish(
         "model_checking",
-        "dependent full products per boundary kind: EXTERIOR/ADIABATIC: tilt{0,45,60,60.01,90,119.99,120,180,270} x layer stack{[], [ins], [R-only], [ins,R-only], [massive], missing material, lambda=0, missing construction (+2 in thorough)} x space kind(3); INTERIOR: x neighbour{conditioned, unconditioned, uninhabited, none, dangling} x n_v{given, not} x building ventilation{given, not} x slab insulation x neighbour depth x owner side (the height of the conditioned space alternates 3.0 / 4.5 m with the configuration index); GROUND: x burial depth z x perimeter insulation (D,Rn) x slab size x exposed-perimeter share x slab insulation (the subject is the slab itself for floor tilts); + monotonicity variants (extra layer, extra R-only layer, first layer doubled) for air-contact elements and partitions; + every wall of the 7 shipped models; for every 4th model (all in thorough) also the U-value reported in EnergyIndicators.props.walls for every wall of the model (constructions shared between boundary kinds and tilts); oracle: f64 formulas of EN ISO 6946/13370/13789 with the rounding-interval rule; non-trivial = a U-value is defined",
+        "dependent full products per boundary kind: EXTERIOR/ADIABATIC: tilt{0,45,60,60.01,90,119.99,120,180,270} x layer stack{[], [ins], [R-only], [ins,R-only], [massive], missing material, lambda=0, missing construction (+2 in thorough)} x space kind(3); INTERIOR: x neighbour{conditioned, unconditioned, uninhabited, none, dangling} x n_v{given, not} x building ventilation{given, not} x slab insulation x neighbour depth x owner side (the height of the conditioned space alternates 3.0 / 4.5 m, the partition's own size 4x3 / 2.5x2 m and a window in it, with the configuration index); GROUND: x burial depth z x perimeter insulation (D,Rn) x slab size x exposed-perimeter share x slab insulation (the subject is the slab itself for floor tilts); + monotonicity variants (extra layer, extra R-only layer, first layer doubled) for air-contact elements and partitions; + every wall of the 7 shipped models; for every 4th model (all in thorough) also the U-value reported in EnergyIndicators.props.walls for every wall of the model, and the subject's U-value with walls, spaces and windows stored in another order (constructions shared between boundary kinds and tilts); oracle: f64 formulas of EN ISO 6946/13370/13789 with the rounding-interval rule; non-trivial = a U-value is defined",
         true,
         json!({}),
     )
